@@ -36,6 +36,35 @@ REAL_VS_STUB = {
 }
 
 
+def raise_reach(sites):
+    """Which of unyt's own `raise` statements (found by ast in the source
+    tree under test) were executed by the runs of this check."""
+    import ast
+
+    from .core import unyt_src
+
+    root = os.path.join(os.path.realpath(unyt_src()), "unyt")
+    stmts = set()
+    for fn in sorted(os.listdir(root)):
+        if not fn.endswith(".py"):
+            continue
+        try:
+            tree = ast.parse(open(os.path.join(root, fn)).read())
+        except SyntaxError:
+            continue
+        for node in ast.walk(tree):
+            if isinstance(node, ast.Raise):
+                stmts.add((fn, node.lineno))
+    hit = sorted(s for s in stmts if s in sites)
+    missed = sorted(s for s in stmts if s not in sites)
+    return {
+        "raise_statements_in_unyt": len(stmts), "reached": len(hit),
+        "other_raising_lines_reached": len([s for s in sites if s not in stmts]),
+        "reached_by_file": {f: sum(1 for s in hit if s[0] == f) for f in sorted({s[0] for s in stmts})},
+        "not_reached": [f"{f}:{ln}" for f, ln in missed][:120],
+    }
+
+
 class Aggregate:
     def __init__(self, prop):
         self.prop = prop
@@ -56,6 +85,7 @@ class Aggregate:
         self.samples = []
         self.other_props = {}
         self.extra = {}
+        self.raise_sites = set()
 
     def _merge(self, into, d):
         for k, v in (d or {}).items():
@@ -89,6 +119,7 @@ class Aggregate:
             self.nontrivial_runs += 1
         if res.get("abstract_state"):
             self.states.add(res["abstract_state"])
+        self.raise_sites.update(tuple(x) for x in res.get("raise_sites", []))
         for v in res.get("other_violations", []):
             self.other_props[v["sig"]] = self.other_props.get(v["sig"], 0) + 1
         if len(self.samples) < 3 and res.get("nontrivial"):
@@ -131,6 +162,7 @@ def write(prop, tier, seed, level, agg, selftest, wall, batch_wall=None, error=N
         })
         for k, v in agg.extra.items():
             cov[k] = sorted(v) if isinstance(v, set) else v
+        cov["raise_statement_reach"] = raise_reach(agg.raise_sites)
     cov["determinism_selftest"] = selftest
     cov["known_findings_listed"] = list(known)
     cov["minimisation"] = list(minimisation)
